@@ -50,7 +50,7 @@ theorem parseExtension_ok (tagSpace : Bool) (s : PState) :
   · split
     · split
       · simpa using h12
-      · dsimp only
+      · try dsimp only
         split
         · simp
         · split
@@ -258,18 +258,19 @@ theorem parseStag_ok (s : PState) : Ok (fun p => Adv 1 s p.2) (parseStag s) := b
   · exact parseTag_ok s
 
 /-- The attribute part of `parse_element`. -/
-theorem elemAttrs_ok (tag : UInt8) {s : PState} (hl : s.lang ≠ none) :
-    Ok (fun p => Adv 0 s p.2)
+theorem elemAttrs_ok (tag : UInt8) {s0 s : PState} (h0 : Adv 1 s0 s) (hl0 : s0.lang ≠ none) :
+    Ok (fun p => Adv 1 s0 p.2)
       (if (tag.toNat &&& 0x80 != 0) = true then do
           let (as, s) ← attrsLoop (s.rest.length + 1) [] s
           let s ← skip1 "END of attributes" s
           pure (as, s)
         else pure (([] : List Attr), s)) := by
+  have hl : s.lang ≠ none := by rw [h0.lang]; exact hl0
   split
   · bind_ok (attrsLoop_ok _ _ s hl (Nat.lt_succ_self _)) with ⟨as, s1⟩ ⟨h1, ht⟩
     bind_ok (skip1_tok ht) with s2 h2
-    simp only [Ok_pure]; exact h1.trans h2
-  · simp only [Ok_pure]; exact Adv.refl s
+    simp only [Ok_pure]; exact (h0.trans h1 (m := 1)).trans h2
+  · simp only [Ok_pure]; exact h0
 
 /-- Fuel and safety of the mutual pair. `parseElement` needs `2·len + 2`, `contentLoop` needs
     `2·len + 3`: each nesting level spends two units and at least one byte. -/
@@ -289,17 +290,12 @@ theorem elem_content_ok : ∀ (f : Nat),
       have h12 : Adv 1 s s2 := h1.trans h2
       try dsimp only
       -- the state after recording the current tag
-      generalize hs3 : (match name with
-        | Name.token r => ({ s2 with curTag := some r } : PState)
-        | Name.literal _ => s2) = s3
-      have h3 : Adv 1 s s3 := by
-        subst hs3
-        cases name with
+      refine Ok.bind (elemAttrs_ok tag (s0 := s) ?_ hl) ?_
+      · cases name with
         | token r => exact h12.of_rest_eq rfl rfl rfl rfl
         | literal _ => exact h12
-      have hl3 : s3.lang ≠ none := by rw [h3.lang]; exact hl
-      bind_ok (elemAttrs_ok tag hl3) with ⟨attrs, s4⟩ h4
-      have h34 : Adv 1 s s4 := h3.trans h4
+      rintro ⟨attrs, s4⟩ h34
+      replace h34 : Adv 1 s s4 := h34
       have hl4 : s4.lang ≠ none := by rw [h34.lang]; exact hl
       try dsimp only
       refine Ok.bind (P := fun p => Adv 1 s p.2) ?_ ?_
@@ -390,6 +386,15 @@ theorem parseBody_ok (ev : List Event) {s : PState} (hl : s.lang ≠ none) :
 
 /-! ### Header -/
 
+theorem ite_charset_rest (c : Prop) [Decidable c] (s : PState) (x : Nat) :
+    (if c then { s with charset := x } else s).rest = s.rest := by split <;> rfl
+
+theorem ite_charset_lang (c : Prop) [Decidable c] (s : PState) (x : Nat) :
+    (if c then { s with charset := x } else s).lang = s.lang := by split <;> rfl
+
+theorem ite_charset_strtbl (c : Prop) [Decidable c] (s : PState) (x : Nat) :
+    (if c then { s with charset := x } else s).strtbl = s.strtbl := by split <;> rfl
+
 theorem parseStrtbl_ok (s : PState) :
     Ok (fun s' => s'.lang = s.lang ∧ s'.charset = s.charset ∧ s'.rest <:+ s.rest ∧
                   s'.rest.length + 1 ≤ s.rest.length) (parseStrtbl s) := by
@@ -400,12 +405,12 @@ theorem parseStrtbl_ok (s : PState) :
   · rename_i len r heq
     rw [heq] at hm
     obtain ⟨h1, h2⟩ := hm
-    try dsimp only
+    dsimp only at h1 h2 ⊢
     split
-    · exact ⟨rfl, rfl, h1, h2⟩
+    · rw [Ok_ok]; exact ⟨rfl, rfl, h1, h2⟩
     · split
       · simp
-      · simp only [Ok_ok]
+      · rw [Ok_ok]
         refine ⟨rfl, rfl, (List.drop_suffix _ _).trans h1, ?_⟩
         simp only [List.length_drop]; omega
 
@@ -421,22 +426,42 @@ theorem parseHeader_ok (cfg : PCfg) (bs : Bytes) :
     try dsimp only
     -- public id
     refine Ok.bind (P := fun (q : Nat × Option Nat × PState) =>
-        q.2.2.rest <:+ s1.rest ∧ q.2.2.rest.length + 1 ≤ s1.rest.length ∧ q.2.2.version = ver.toNat ∧
-        q.2.2.charset = 0) ?_ ?_
+        q.2.2.rest <:+ s1.rest ∧ q.2.2.rest.length + 1 ≤ s1.rest.length) ?_ ?_
     · split
       · simp
       · rename_i b r hr
-        have hr' : s1.rest = b :: r := hr
-        have hc1 : s1.charset = 0 := h1.charset
+        replace hr : s1.rest = b :: r := hr
         split
         · bind_ok (parseMb_ok _) with ⟨i, s2⟩ h2
           simp only [Ok_pure]
-          refine ⟨?_, ?_, ?_, ?_⟩
-          · rw [hr']; exact h2.suffix.trans (List.suffix_cons _ _)
-          · have := h2.len; simp [hr'] at this ⊢; omega
-          · sorry
-          · exact h2.charset
-        · sorry
-    · sorry
+          refine ⟨?_, ?_⟩
+          · rw [hr]; exact h2.suffix.trans (List.suffix_cons _ _)
+          · have := h2.len; simp only [hr, List.length_cons] at this ⊢; omega
+        · bind_ok (parseMb_ok _) with ⟨p, s2⟩ h2
+          simp only [Ok_pure]
+          exact ⟨h2.suffix, h2.len⟩
+    · rintro ⟨pubId, pubIdx, s2⟩ ⟨h2a, h2b⟩
+      dsimp only at h2a h2b ⊢
+      -- charset
+      refine Ok.bind (P := fun (q : PState) => q.rest <:+ s2.rest) ?_ ?_
+      · split
+        · bind_ok (parseMb_ok _) with ⟨cs, s3⟩ h3
+          repeat' split
+          all_goals first | exact h3.suffix | exact True.intro
+        · simp only [Ok_pure]; exact List.suffix_refl _
+      · intro s3 h3
+        refine Ok.bind (parseStrtbl_ok _) ?_
+        rintro s4 ⟨_, _, h4a, h4b⟩
+        rw [ite_charset_rest] at h4a h4b
+        split
+        · simp
+        · rw [Ok_pure]
+          have hs1 : s1.rest <:+ bs := h1.suffix
+          have hl1 : s1.rest.length + 1 ≤ bs.length := h1.len
+          have hs3 : s3.rest <:+ s1.rest := h3.trans h2a
+          refine ⟨rfl, (h4a.trans hs3).trans hs1, ?_⟩
+          have := h3.length_le
+          show s4.rest.length + 3 ≤ bs.length
+          omega
 
 end Wbxml.Lemmas.ParserSafe
